@@ -273,8 +273,11 @@ func (p *Proto) abortsOnAllPaths(fn *ssa.Function, isTxn func(ssa.Value) bool) (
 	return true, "Abort is called on every path to every exit of the deferred function"
 }
 
-func checkC04Managed(w *World, r *Report, p *Proto) {
-	ru := r.Rule("C04.3", "every transaction opened for writing (or with a non-constant mode) by a function that does not hand it to its caller is aborted on every exit, panics included: a defer whose body calls Abort on all its paths is registered immediately after opening, with nothing in between that can panic", 6)
+func checkC04Managed(w *World, r *Report, p *Proto) { checkC04ManagedAs(w, r, p, "C04.3") }
+
+// checkC04ManagedAs is rule C04.3; C15 repeats it as C15.3 ("the writer lock is released after a panic").
+func checkC04ManagedAs(w *World, r *Report, p *Proto, id string) {
+	ru := r.Rule(id, "every transaction opened for writing (or with a non-constant mode) by a function that does not hand it to its caller is aborted on every exit, panics included: a defer whose body calls Abort on all its paths is registered immediately after opening, with nothing in between that can panic", 6)
 	ru.Idiom("defer txn.Abort()", "defer func(){ if p := recover(); p != nil { txn.Abort(); panic(p) }; txn.Abort() }()")
 	for _, fn := range w.FoxFuncs() {
 		if isTestHelper(w, fn) {
